@@ -23,4 +23,9 @@ CLAIMED['C10'] = {
     'text': 'For every number of samples and of bins (IMF columns enumerated 1..3/5) each in-range sample is proved to reach the sparse constructor exactly once with its half-open bin, its own time column and its (squared) amplitude, and every out-of-range sample to be dropped; the 1-D marginal is proved cell by cell. Agreement of the dense/sparse/1-D totals is bounded only.',
     'note': PROOF_NOTE + 'scipy.sparse.coo_matrix duplicate summation and np.digitize are assumed contracts.',
 }
+CLAIMED['C11'] = {
+    'technique': 'deductive: contract on the triples holospectrum hands to coo_matrix (row=time, column=folded bin pair, data=amplitude^p), non-linear fold/unfold/trim lemmas, output-cell postcondition for the three squash settings; VCs from the real source discharged by z3/cvc5; bounded stand-in: exhaustive small grids vs triple-loop histogram',
+    'text': 'For every number of samples and of carrier / AM bins (M, K enumerated 1..2) each sample is proved to be folded into exactly the column that unfolds to its (AM bin, carrier bin) cell, the output to be the unfolded matrix with exactly the out-of-range margins trimmed, and shape [T x AM x carrier]; sum/mean are the column sums/means of the same matrix (assumed scipy contract).',
+    'note': PROOF_NOTE + 'scipy.sparse duplicate summation / sum / mean and np.digitize are assumed contracts.',
+}
 PENDING_REASON = {}
